@@ -61,7 +61,16 @@ type Context struct {
 	jobconfigInformer executioninformers.JobConfigInformer
 	HasSynced         []cache.InformerSynced
 	queue             workqueue.RateLimitingInterface
-	updatedConfigs    chan *execution.JobConfig
+	updatedConfigs    chan flushRequest
+}
+
+// flushRequest is a request to recompute the next schedule time of a JobConfig.
+type flushRequest struct {
+	jobConfig *execution.JobConfig
+
+	// added is true if the JobConfig was added rather than updated or deleted. Note
+	// that all existing JobConfigs are also added when the controller starts up.
+	added bool
 }
 
 // NewContext returns a new Context.
@@ -80,7 +89,7 @@ func NewContext(context controllercontext.Context) *Context {
 		c.jobconfigInformer.Informer().HasSynced,
 	}
 
-	c.updatedConfigs = make(chan *execution.JobConfig, updatedConfigsBufferSize)
+	c.updatedConfigs = make(chan flushRequest, updatedConfigsBufferSize)
 
 	return c
 }
